@@ -540,6 +540,22 @@ class Interp:
             return self.call_function(f.func, list(args), kwargs, nostub=True)
         if isinstance(f, Opaque):
             return self.models.call_opaque(self, f, args, kwargs)
+        if type(f).__name__ == "_lru_cache_wrapper" and self.is_interp_func(getattr(f, "__wrapped__", None)):
+            # functools.lru_cache / cache: a later call with equal (concrete, hashable) arguments returns the
+            # *same object* as the earlier one - what matters when the result is mutable. Calls with symbolic
+            # arguments run the function (their aliasing is not modelled).
+            try:
+                key = (id(f), tuple(args), tuple(sorted(kwargs.items())))
+                concrete = not is_symbolic([list(args), list(kwargs.values())])
+                hash(key)
+            except TypeError:
+                concrete = False
+            if not concrete:
+                return self.call_function(f.__wrapped__, list(args), kwargs)
+            memo = self.path.__dict__.setdefault("lru_memo", {})
+            if key not in memo:
+                memo[key] = self.call_function(f.__wrapped__, list(args), kwargs)
+            return memo[key]
         if isinstance(f, types.FunctionType):
             if self.is_interp_func(f):
                 return self.call_function(f, list(args), kwargs)
